@@ -198,9 +198,15 @@ def runNumeric (lines : List String) : IO Unit := do
       | "term" :: _ => a := { a with segment := a.segment ++ [cmd] }
       | "tpreset" :: _ => a := { a with segment := a.segment ++ [cmd] }
       | "site" :: _ => a := { a with segment := a.segment ++ [cmd] }
+      | ["newlattice"] => a := { a with accepted := [] }
+      | ["fork"] => a := { a with acceptedSaved := a.accepted }
+      | ["unfork"] => a := { a with accepted := a.acceptedSaved }
       | ["dm", b] => a := { a with s := { a.s with beta := fOf b }, cRot := #[] }
       | ["trunc", e] => a := { a with s := { a.s with truncEps := fOf e } }
       | _ => pure ()
+    | ["o", "ok"] =>
+      if lastCmd.headD "" == "term" || lastCmd.headD "" == "preset" || lastCmd.headD "" == "tpreset" then
+        a := { a with accepted := a.accepted ++ [lastCmd] }
     | ["o", "nidx", n] => a := { a with s := { a.s with M := nat! n, dim := 2 ^ nat! n }, idxTable := [] }
     | ["o", "idx", _, l, o, sp, _] => a := { a with idxTable := a.idxTable ++ [(l, nat! o, nat! sp)] }
     | "o" :: "sites" :: _ :: rest =>
@@ -244,6 +250,21 @@ def runNumeric (lines : List String) : IO Unit := do
                       a ← fail a "C04" s!"preset '{a.lastPreset.getD 1 ""}' does not commute with the total spin raising operator ({maxAbs comm})"
                   | none => pure ()
               | _, _ => pure ()
+            -- (d) the Hamiltonian is the sum of the operators that were ADDED (what the script asked for and the library
+            --     accepted): user terms as ordered products, presets as documented -- whatever the lattice chose to store
+            let cmds := a.accepted
+            let plain := cmds.all fun c => c.headD "" == "term" ||
+              (c.headD "" == "preset" && c.getD 1 "" != "magnetization" && (docMatrix a c).isSome)
+            if plain && !cmds.isEmpty then
+              let userTerms := cmds.filterMap fun c => if c.headD "" == "term" then readLTerm (c.drop 1) else none
+              match termsMatrix a.s.M a.idxTable userTerms with
+              | some Hu =>
+                let want := cmds.foldl (fun acc c => if c.headD "" == "preset" then
+                    match docMatrix a c with | some D => matAdd acc D | none => acc else acc) Hu
+                a := a.bump "hamiltonians_vs_added_operators"
+                if maxDiff Hp want > 1.0e-12 * (1.0 + maxAbs want) then
+                  a ← fail a "C04" s!"Hamiltonian differs from the sum of the operators that were added (user terms as ordered products, presets as documented) by {maxDiff Hp want}"
+              | none => pure ()
           | none => a ← fail a "C04" "a stored lattice term refers to a (site, orbital, spin) that has no index"
     | "o" :: "blk" :: b :: _ :: sts =>
       let arr := a.s.blocks
